@@ -9,14 +9,19 @@ from . import common
 
 def main():
     bad = []
-    for tool in ("java", "ninja", "picosvg", "resvg", "nanoemoji", "maximum_color"):
+    for tool in ("java", "ninja", "picosvg", "resvg", "nanoemoji", "maximum_color", "tlapm"):
         if not shutil.which(tool):
             bad.append(f"missing tool {tool}")
     try:
         common.setup_repo_imports()
     except Exception as e:  # noqa
         bad.append(f"cannot import nanoemoji: {e}")
-    mods = sorted(p.stem for p in common.SPEC.glob("*.tla"))
+    mods = sorted(p.stem for p in common.SPEC.glob("*.tla") if not p.stem.endswith("Proof"))
+    # proof modules extend TLAPS (not on SANY's path): tlapm reads and re-checks them
+    proofs = {"ScratchProof": ("Scratch",), "QuantizeProof": ("Quantize",), "GlyphNameProof": ("GlyphName",), "PartsProof": ("Parts",)}
+    missing = sorted(p.stem for p in common.SPEC.glob("*Proof.tla") if p.stem not in proofs)
+    if missing:
+        bad.append(f"proof modules without a registered dependency list: {missing}")
 
     def one(m):
         ok, out = common.sany(m)
@@ -26,7 +31,12 @@ def main():
         for m, ok, out in ex.map(one, mods):
             if not ok:
                 bad.append(f"SANY failed for {m}:\n{out[-1500:]}")
+    with ThreadPoolExecutor(4) as ex:
+        for (name, deps), (ok, line) in zip(proofs.items(), ex.map(lambda kv: common.run_tlapm(kv[0], kv[1]), proofs.items())):
+            print("setup:", line)
+            if ok is not True:
+                bad.append(f"proof {name} does not check: {line}")
     for b in bad:
         print("SETUP-ERROR", b, file=sys.stderr)
-    print(f"setup: {len(mods)} spec modules parsed, {len(bad)} problems")
+    print(f"setup: {len(mods)} spec modules parsed, {len(proofs)} proofs checked, {len(bad)} problems")
     return 2 if bad else 0
